@@ -25,7 +25,7 @@ RULE = ('random environments (float/int/bool/str nodes, arrays, groups, optional
 SHARDS = {'quick': 16, 'thorough': 16}
 MIN_NONTRIVIAL = {'quick': 1500, 'thorough': 60000}
 NCASES = {'quick': 3300, 'thorough': 160000}
-TIME_CAP = {'quick': 50, 'thorough': 780}
+TIME_CAP = {'quick': 300, 'thorough': 3600}
 
 KEY_CUSTOM = 'C18-custom-unit-breaks-numerical-expression'
 KEY_NEGEQ = 'C18-negated-equality-raises'
